@@ -2661,7 +2661,7 @@ impl<'a> Model<'a> {
         worksheet.get_cell_structure(row, column)
     }
 
-    fn set_cell_with_formula(
+    pub(crate) fn set_cell_with_formula(
         &mut self,
         sheet: u32,
         row: i32,
